@@ -141,6 +141,18 @@ class Executor:
         env = dict(os.environ)
         env.pop("VERIF_FAULTS", None)
         env["NO_COLOR"] = "1"
+        if self.engine == "sessim":
+            # scenarios travel on their own descriptor; the simulated session's programs own
+            # the process's stdin, which is closed (read_line() sees EOF)
+            r, w = os.pipe()
+            self.p = subprocess.Popen(
+                [BIN, "verif-sim", self.engine, "--fd", str(r)] + self.extra_args,
+                cwd=self.cwd, stdin=subprocess.DEVNULL, stdout=subprocess.PIPE, stderr=subprocess.PIPE, env=env,
+                pass_fds=(r,),
+            )
+            os.close(r)
+            self.p.stdin = os.fdopen(w, "wb")
+            return
         self.p = subprocess.Popen(
             [BIN, "verif-sim", self.engine] + self.extra_args,
             cwd=self.cwd,
